@@ -106,6 +106,9 @@ class ScopeExitPoint
 }  // namespace dbgroup::verif
 
 #define DBGROUP_VERIF_POINT(id, obj) ::dbgroup::verif::Point(::dbgroup::verif::id, (obj))
+// for the start of constexpr functions (a plain call there would make the function never constant-evaluable)
+#define DBGROUP_VERIF_POINT_CONSTEXPR(id, obj) \
+  (__builtin_is_constant_evaluated() ? (void)0 : ::dbgroup::verif::Point(::dbgroup::verif::id, (obj)))
 #define DBGROUP_VERIF_POINT_AT_EXIT(id, obj) \
   const ::dbgroup::verif::ScopeExitPoint dbgroup_verif_scope_exit_ { ::dbgroup::verif::id, (obj) }
 #define DBGROUP_VERIF_PROBE_START(dflt, cap) ::dbgroup::verif::ProbeStart((dflt), (cap))
@@ -113,6 +116,7 @@ class ScopeExitPoint
 #else
 
 #define DBGROUP_VERIF_POINT(id, obj) ((void)0)
+#define DBGROUP_VERIF_POINT_CONSTEXPR(id, obj) ((void)0)
 #define DBGROUP_VERIF_POINT_AT_EXIT(id, obj) ((void)0)
 #define DBGROUP_VERIF_PROBE_START(dflt, cap) (dflt)
 
